@@ -471,6 +471,15 @@ class Gen:
             self.count('while')
             v = self.rng.choice(VARS)
             body = self.block(depth + 1, True, in_func)
+            if self.rng.random() < 0.2:
+                # `while VALUE:` - the loop runs on the truthiness of a value of any type (objects, arrays, strings ...);
+                # a counter ends it after a few iterations by assigning a falsy value
+                self.count('while-value')
+                k = self.rng.choice(['i', 'j'])
+                body.append({'k': 'expr', 'name': k, 'e': wf_binary('+', wf_binary('||', var(k), num(0)), num(1))})
+                body.append({'k': 'if', 'c': wf_binary('>=', var(k), num(self.rng.randint(2, 4))),
+                             't': [{'k': 'expr', 'name': v, 'e': self.rng.choice([var('null'), num(0), string('')])}], 'else': None})
+                return {'k': 'while', 'c': var(v), 'b': body}
             if self.rng.random() < 0.8:
                 body.append({'k': 'expr', 'name': v, 'e': wf_binary('+', var(v), num(1))})
             return {'k': 'while', 'c': wf_binary('<', var(v), num(self.rng.randint(1, 4))), 'b': body}
